@@ -34,6 +34,8 @@ L == INSTANCE RetryLoop WITH
         Classes <- Mon!AllClasses,
         Outs  <- IF Is("invoke") THEN {[out |-> Cur.out, k |-> Cur.k, ra |-> Cur.ra]} ELSE {},
         Durs  <- IF Is("invoke") THEN {Cur.dur} ELSE {},
+        CDurs <- IF Is("classify") \/ Is("rclassify") THEN {Cur.dur} ELSE {},
+        EDurs <- IF Is("emit") THEN {Cur.dur} ELSE {},
         Rets  <- IF Is("strategy") THEN {Cur.ret} ELSE {},
         Advs  <- IF Is("sleep") THEN {Cur.adv} ELSE {},
         Decs  <- IF Is("handler") THEN {Cur.dec} ELSE {},
